@@ -480,6 +480,7 @@ func c11ResumeOneRun(c *c11Case, l *c11Layout, r *c11AnyRunner, interrupts bool)
 							depth--
 						}
 						s.Ctr[0] += d * (depth + 1)
+						rr.see(s) // the restored object, also when no node touches it afterwards
 						return nil
 					}))
 				}
